@@ -86,8 +86,15 @@ func (t *TimerBasedElectionTrigger) Stop() {
 }
 
 func (t *TimerBasedElectionTrigger) CalcTimeout(view primitives.View) time.Duration {
-	timeoutMultiplier := time.Duration(int64(math.Pow(TIMEOUT_EXP_BASE, float64(view))))
-	return timeoutMultiplier * t.minTimeout
+	// minTimeout * 2^view, saturating at the largest Duration instead of wrapping
+	const maxTimeout = time.Duration(math.MaxInt64)
+	if t.minTimeout <= 0 {
+		return t.minTimeout
+	}
+	if view >= 63 || t.minTimeout > maxTimeout>>uint(view) {
+		return maxTimeout
+	}
+	return t.minTimeout << uint(view)
 }
 
 func triggerElections(electionChannel chan *interfaces.ElectionTrigger, height primitives.BlockHeight, view primitives.View, triggerCancelled chan struct{}, electionsFunc func()) {
